@@ -239,7 +239,18 @@ macro_rules! shape_all {
 macro_rules! shape_marked {
     ($name:ident, $tl:ident { $($af:ident : $aty:ident = $ak:ident),* } plain { $($pf:ident : $pty:ident = $pk:ident),* }) => {
         #[derive(Animate, Clone, Debug, Default, PartialEq)]
-        pub struct $name { $(#[animate] pub $af: $aty,)* $(pub $pf: $pty),* }
+        pub struct $name {
+            $(
+                /// An animated field (documented, and carrying an unrelated attribute before `#[animate]`).
+                #[allow(dead_code)]
+                #[animate]
+                pub $af: $aty,
+            )*
+            $(
+                /// A field excluded from animation.
+                pub $pf: $pty
+            ),*
+        }
         shape_impl!($name, $name, $tl, [$($af : $aty = $ak),*], [$($pf : $pty = $pk),*]);
     };
 }
